@@ -1,13 +1,13 @@
 """C03 — LDAR never worsens a leak; durations are bounded; non-repairables untouched.
 
-Lean: Props/C03.lean (C03_le_baseline, C03_bounded, C03_bounded_partial, C03_nonrepairable,
-C03_partial(_E), C03_counterexample).  Tie: as C02 (same adapter and case set) + whole-run records.
+Lean: Props/C03.lean (C03_le_baseline, C03_le_baseline_all(_E), C03_emit_le_baseline(_E) via the prefix relation
+run_pre, C03_bounded, C03_bounded_partial, C03_nonrepairable, C03_partial(_E), C03_counterexample).  Tie: as C02 (same adapter and case set) + whole-run records.
 """
 from harness import core
 from harness.props import _emission_common as EC
 
 MANIFEST_ENTRY = {
-    "text": "Lean theorems prove, for every emission, tag/record schedule and horizon: active days <= active days of the no-LDAR run (C03_le_baseline), active days + pre-period days <= max(duration, pre-period days + 1) with the clean bound <= duration whenever the emission is younger than its duration at period start (C03_bounded, C03_bounded_partial), and for non-repairable emissions the whole observable life-cycle (status, active days, emitted days, end date) is independent of the schedule, never repaired, mitigation 0 (C03_nonrepairable, by a simulation relation over the day loop). C03_counterexample proves the clean duration bound false for an emission generated exactly `duration` days before the period (known finding F3). Model tied to the real emission classes / Component / Source by differential correspondence every run and by trace conformance of whole simulations; oracle evaluates the clauses on implementation outputs (program vs baseline).",
+    "text": "Lean theorems prove, for every emission, tag/record schedule and horizon: active days <= active days of the no-LDAR run, unconditionally for all four emission classes (C03_le_baseline_all(_E)); emitted days <= emitted days of the no-LDAR run, also for intermittent repairable leaks (C03_emit_le_baseline(_E), from the prefix relation run_pre: while the program run is alive it agrees with the baseline on the whole on/off automaton); active days + pre-period days <= max(duration, pre-period days + 1) with the clean bound <= duration whenever the emission is younger than its duration at period start (C03_bounded, C03_bounded_partial), and for non-repairable emissions the whole observable life-cycle (status, active days, emitted days, end date) is independent of the schedule, never repaired, mitigation 0 (C03_nonrepairable, by a simulation relation over the day loop). C03_counterexample proves the clean duration bound false for an emission generated exactly `duration` days before the period (known finding F3). Model tied to the real emission classes / Component / Source by differential correspondence every run and by trace conformance of whole simulations (every second one with an intermittent non-repairable source and two repairable sources on one component); oracle evaluates the clauses on implementation outputs (program vs baseline), non-repairable emissions day by day on the per-day trace; domain / hypothesis hit counters in the evidence.",
     "design_ref": "DESIGN.md 5.3, 4.1",
     "note": "trusted: Lean kernel + standard axioms; hand-written model tied by sampled/structured-exhaustive correspondence; harness adapters; durations of whole-run records taken from the generated configuration",
     "technique": "Lean 4 invariant + simulation-relation proofs over the emission state machine + differential correspondence + direct oracle",
@@ -20,10 +20,18 @@ def check(ctx, who, kind_rep, start, nrd, res, base, inp):
     b4 = max(0, -start)
     if res["activeDays"] > base["activeDays"]:
         ctx.violate("C03:longer-than-baseline", "emission active longer than in the no-LDAR run", inp)
+    if res.get("emitDays") is not None and base.get("emitDays") is not None and res["emitDays"] > base["emitDays"]:
+        # C03_emit_le_baseline: "never worsens" also in what the record reports as emitted
+        ctx.violate("C03:emitted-more-than-baseline", "emission emitted on more days than in the no-LDAR run", inp)
+    if nrd >= 1 and -nrd <= start:
+        ctx.count(who + ":in-statement-domain")
+        if start == -nrd:
+            ctx.count(who + ":start==-duration(F3-domain)")
     if nrd >= 1 and -nrd <= start and res["activeDays"] + b4 > nrd:
         if start == -nrd and res["activeDays"] + b4 == nrd + 1:
             ctx.violate("C03:bounded:start==-duration",
                         "emission generated exactly `duration` days before the period is active one day beyond its duration", inp)
+            ctx.count(who + ":F3-occurrences")
         else:
             ctx.violate("C03:bounded:other", "emission active longer than its configured maximum duration", inp)
     if not kind_rep:
@@ -35,6 +43,23 @@ def check(ctx, who, kind_rep, start, nrd, res, base, inp):
             ctx.violate("C03:nonrepairable-repaired", "non-repairable emission repaired", inp)
         if res["mitDays"] != 0:
             ctx.violate("C03:nonrepairable-mitigation", "non-repairable emission credited with mitigation", inp)
+
+
+def check_trace(ctx, who, case, per_day, base_per_day, inp):
+    """non-repairable emissions, day by day: status, active days, emitting days and the emitting flag of
+    the program run equal those of the no-event run after *every* simulated day (a transient difference
+    that heals before the end would be invisible in the final records)"""
+    if case[3]:
+        return
+    a, b = EC.life_trace(per_day), EC.life_trace(base_per_day)
+    ctx.count(who + ":nonrepairable-day-traces")
+    ctx.count(who + ":nonrepairable-days-compared", len(a))
+    if a != b:
+        day = next((i for i, (x, y) in enumerate(zip(a, b)) if x != y), min(len(a), len(b)))
+        ctx.violate("C03:nonrepairable-affected:transient",
+                    "non-repairable emission differs from the no-LDAR run on day %d (status:activeDays:daysEmitting:emitting %s vs %s)"
+                    % (day, a[day] if day < len(a) else None, b[day] if day < len(b) else None),
+                    dict(inp, first_differing_day=day))
 
 
 def wholerun_record(ctx, res, rec):
@@ -50,14 +75,23 @@ def wholerun_record(ctx, res, rec):
         # end dates compared as strings of the two files
         if rec["row"]["Date Repaired or Expired"] != base["endDateStr"]:
             ctx.violate("C03:nonrepairable-affected", "non-repairable emission: end date differs from baseline", inp)
-    check(ctx, "wr", rec["repairable"], rec["start"], rec["nrd"], r, b, inp)
+        if int(rec["row"]["Days Emitting"]) != int(rec["base"]["Days Emitting"]):
+            ctx.violate("C03:nonrepairable-affected", "non-repairable emission: days emitting differ from baseline", inp)
+    check(ctx, "wholerun", rec["repairable"], rec["start"], rec["nrd"], r, b, inp)
     ctx.count("wholerun_oracle_evaluated")
+    ctx.count("wholerun_oracle:%s%s" % ("repairable" if rec["repairable"] else "non-repairable",
+                                        "-intermittent" if rec["intermittent"] else ""))
+    if rec["prog"] != res.cfg["baseline"] and rec["tags"]:
+        ctx.count("wholerun_records_reached_by_events:%s" % ("repairable" if rec["repairable"] else "non-repairable"))
 
 
 def run(ctx):
-    ctx.rule = ("same case set as C02 (structured-exhaustive core + random small/large, 8 emission kinds, "
-                "tag + detection-only events); every case is compared with the no-event run of the same "
-                "emission; whole simulations: every record joined with its baseline twin")
+    ctx.rule = ("same case set as C02 (structured-exhaustive core over reachable starts: persistent and intermittent "
+                "kinds, one/two tags, reporting delay {0,2}; + random small/large, 8 emission kinds, tag + "
+                "detection-only events); every case is compared with the no-event run of the same emission, "
+                "non-repairable ones day by day; whole simulations (every second one with an intermittent "
+                "non-repairable source and two repairable sources on one component): every record joined with "
+                "its baseline twin")
     core.lean_stage(ctx, MODULE, FILE, drivers=["drv_emission"])
     cases = EC.build_cases(ctx)
     results = EC.correspond(ctx, cases)
@@ -65,15 +99,29 @@ def run(ctx):
     for (c, res, ml, il) in results:
         bk = c[:8]
         if bk not in cache:
-            cache[bk] = EC.impl_result(EC.without_events(c))
-        check(ctx, "case", c[3], c[0], c[1], res, cache[bk], {"case": list(c), "program": res, "baseline": cache[bk]})
+            cache[bk] = EC.impl_full(EC.without_events(c))
+        base, base_days = cache[bk]
+        inp = {"case": list(c), "program": res, "baseline": base}
+        check(ctx, "case", c[3], c[0], c[1], res, base, inp)
+        if not c[3]:
+            check_trace(ctx, "case", c, il.split(" | ")[1].split(";") if " | " in il and il.split(" | ")[1] else [],
+                        base_days, inp)
         ctx.count("oracle_evaluated")
     for (c, res, ml, il) in results[:3]:
         ctx.sample({"case": list(c), "impl": il.split(" | ")[0]})
     EC.shared_component_stage(
         ctx, lambda ctx, case, res, base, w: check(ctx, "shared", case[3], case[0], case[1], res, base,
-                                                  {"world": w, "case": list(case), "program": res, "baseline": base}))
+                                                  {"world": w, "case": list(case), "program": res, "baseline": base}),
+        per_trace=lambda ctx, case, tr, btr, w: check_trace(ctx, "shared", case, tr, btr, {"world": w, "case": list(case)}))
     EC.wholerun_stage(ctx, 2, 12, wholerun_record)
+    EC.finish_hit_rates(ctx)
+    for k in ("wholerun:F3-occurrences", "wholerun:start==-duration(F3-domain)",
+              "wholerun_oracle:non-repairable-intermittent", "wholerun_records_reached_by_events:non-repairable"):
+        ctx.counts.setdefault(k, 0)
+        if ctx.counts[k] == 0:
+            ctx.note("whole runs of this seed: %s = 0" % k)
+    ctx.extra["domain_evidence"] = {k: v for k, v in sorted(ctx.counts.items())
+                                    if k.split(":")[0] in ("case", "shared", "wholerun") or k.startswith("wholerun_")}
 
 
 def replay(ctx, data):
@@ -87,6 +135,7 @@ def replay(ctx, data):
     res = EC.impl_result(case)
     base = EC.impl_result(EC.without_events(case))
     check(ctx, "case", case[3], case[0], case[1], res, base, {"case": list(case)})
+    check_trace(ctx, "case", case, EC.impl_full(case)[1], EC.impl_full(EC.without_events(case))[1], {"case": list(case)})
     print("program :", res)
     print("baseline:", base)
     for v in ctx.violations:
